@@ -52,6 +52,13 @@ pub const MSG_LENGTHS: [usize; 30] = [
 ];
 pub const MSG_CLASSES: usize = 4;
 
+/// quick tiers: the first 21 lengths plus one beyond 1 KiB, one beyond 4 KiB and one beyond 64 KiB
+pub fn quick_lengths() -> Vec<usize> {
+    let mut v = MSG_LENGTHS[..21].to_vec();
+    v.extend_from_slice(&[1025, 4097, 65537]);
+    v
+}
+
 /// A UTF-8 message of exactly `len` bytes in content class `class`:
 /// 0 = JSON-looking ASCII; 1 = 2/3/4-byte code points mixed (cut at a character boundary, ASCII-padded);
 /// 2 = ASCII with embedded NUL, '.', '=', '"' and '\';
@@ -61,7 +68,7 @@ pub fn message(len: usize, class: usize) -> String {
         0 => "{\"data\":\"this is a signed message\",\"exp\":\"2022-01-01T00:00:00+00:00\"}",
         1 => "\u{00e9}\u{2603}\u{1d11e}a\u{00df}\u{4e2d}\u{1f642}",
         2 => "a\0b.c=d\"e\\f.\0.",
-        _ => " \tline one\r\nline two \n",
+        _ => "\u{feff} \tline one\r\nline two \n",
     };
     let mut s = String::with_capacity(len + 8);
     'outer: loop {
@@ -79,8 +86,11 @@ pub fn message(len: usize, class: usize) -> String {
         s.push(if class == 3 { '\n' } else { 'x' });
     }
     if class == 3 && len > 0 && !s.ends_with('\n') && !s.ends_with('\r') {
+        // make the text end in a line break without changing its byte length
         s.pop();
-        s.push('\n');
+        while s.len() < len {
+            s.push('\n');
+        }
     }
     debug_assert_eq!(s.len(), len);
     s
